@@ -27,6 +27,7 @@ RULE = (
     "descriptions."
 )
 ASSUMPTIONS = [
+    "rows are in chronological order (the daily/billing classes never sort; a descending index is read as gaps - treated as an implicit precondition of every caller, not generated and not a finding)",
     "span = whole days between the first and the last fully valid row, plus one (what the statement's 329-365 range is applied to)",
     "a day counts as valid temperature when more than 90% of its hourly readings are present (daily feed: when the value is present)",
     "the per-month temperature / usage / irradiance criterion is evaluated on the rows of the data frame grouped by calendar month number",
